@@ -42,6 +42,21 @@ def expected_args(word):
     return out
 
 
+ANYD = "&impl ::core::any::Any"
+# functions with type / const parameters of their own: the un-mocked call must still reach them (only the partial-mock path is exercised:
+# unimock's matching API for generic mock fns is outside this check)
+SPECIAL = {
+    "gen_nested_uses": ("#[::entrait::entrait(pub Tr, mock_api = TrMock)] pub fn fm<T: Clone + Send + Sync + 'static>(deps: %s, xs: &[T], pair: (T, T), arr: [T; 1]) -> usize { xs.len() + 10 }" % ANYD,
+                        "m.fm(&[1u8, 2], (1u8, 2u8), [3u8])", "12"),
+    "gen_plain_use": ("#[::entrait::entrait(pub Tr, mock_api = TrMock)] pub fn fm<T: Clone + Send + Sync + 'static + ::core::fmt::Display>(deps: %s, x: T) -> String { format!(\"{}\", x) }" % ANYD,
+                      "m.fm(7u8)", "7"),
+    "gen_nodeps": ("#[::entrait::entrait(pub Tr, mock_api = TrMock, no_deps)] pub fn fm<T: Clone + Send + Sync + 'static>(xs: &[T], n: usize) -> usize { xs.len() + n }",
+                   "m.fm(&[1u8], 4)", "5"),
+    "gen_in_module": ("#[::entrait::entrait(pub Tr, mock_api = TrMock)] pub mod m { pub fn fa(deps: %s) -> usize { 1 } pub fn fm<T: Clone + Send + Sync + 'static>(deps: %s, xs: &[T]) -> usize { xs.len() + 20 } }" % (ANYD, ANYD),
+                      "Tr::<u8>::fm(&m, &[1u8, 2])", "22"),
+}
+
+
 def enumerate_states(tier):
     maxlen = 3 if tier == "thorough" else 2
     words, transitions = common.words("isu", maxlen)
@@ -72,6 +87,8 @@ def enumerate_states(tier):
                     states.append(dict(key="u_mod_%s_%s_%s" % (word or "0", deps, "a" if asy else "s"), mode="mod", word=word, deps=deps, asy=asy))
             for asy in (False, True):
                 states.append(dict(key="u_trait_%s_%s" % (word or "0", "a" if asy else "s"), mode="trait", word=word, deps="trait", asy=asy))
+    for name in SPECIAL:
+        states.append(dict(key="u_special_" + name, mode="special", special=name, word="", deps="impl", asy=False))
     return states, len(states), dict(arg_kinds=list(KINDS), word_len=maxlen, deps=DEPS)
 
 
@@ -105,6 +122,12 @@ def render(s):
 
 
 def render_(s):
+    if s.get("special"):
+        items, call, exp = SPECIAL[s["special"]]
+        L = ["mod %s {" % s["key"], "    use super::rt;", "    use ::unimock::*;", "    " + items, "    pub fn client() {",
+             '        let r = rt::catch(|| { let m = Unimock::new_partial(()); format!("{}", %s) });' % call,
+             '        rt::out("partial", match r { Ok(v) => v, Err(e) => format!("PANIC:{}", e) });', "    }", "}"]
+        return engine.Unit(s["key"], "\n".join(L), 'rt::run("%s", %s::client);' % (s["key"], s["key"]), s)
     key, word, deps, asy = s["key"], s["word"], s["deps"], s["asy"]
     A = "async " if asy else ""
     params = ", ".join("%s: %s" % (pname(k, i), KINDS[k][0]) for i, k in enumerate(word))
@@ -192,6 +215,8 @@ def render_(s):
 
 
 def model(s):
+    if s.get("special"):
+        return dict(partial=SPECIAL[s["special"]][2])
     exp = {}
     ea = expected_args(s["word"])
     unmockable = s["deps"] in ("impl", "gen", "nodeps")
@@ -224,6 +249,11 @@ def evaluate(states, report, tier):
         else:
             for name, e in m.items():
                 got = res.first(name)
+                if s.get("special"):
+                    obs[name] = got
+                    if got != e:
+                        problems.append(("unmock-panicked" if (got or "").startswith("PANIC:") else "unmock-result", "%s: %r, model says %r" % (name, (got or "")[:300], e)))
+                    continue
                 if isinstance(e, str):
                     obs[name] = got
                     if got != e:
